@@ -48,7 +48,7 @@ impl Prop for C19 {
         "C19"
     }
     fn rule(&self) -> &'static str {
-        "cases 0..833 enumerate the finite part completely (2^16 CRC-16 states x 256 bytes, 2^16 two-byte strings, 16x256 CRC-32 table entries against T[0][i]=bitwise crc of byte i and T[k][i]=(T[k-1][i]>>8)^T[0][T[k-1][i]&0xFF], 2^16 CRC-32 states x 256 bytes, lengths 0..=48); the rest are seeded random strings <= 4 KiB. distinct_nontrivial = distinct (routine, input, output) triples hashed, each of which was compared with the bit-at-a-time reference"
+        "cases 0..833 enumerate the finite part completely (2^16 CRC-16 states x 256 bytes, 2^16 two-byte strings, 16x256 CRC-32 table entries against T[0][i]=bitwise crc of byte i and T[k][i]=(T[k-1][i]>>8)^T[0][T[k-1][i]&0xFF], 2^16 CRC-32 states x 256 bytes, lengths 0..=48); the rest are seeded random strings <= 4 KiB; every string is also hashed at each of the sixteen start offsets of a 16-byte aligned block. distinct_nontrivial = distinct (routine, input, output) triples hashed, each of which was compared with the bit-at-a-time reference"
     }
     fn meta(&self, ctx: &Ctx) -> Value {
         json!({"exhaustive": false, "exhaustive_part": "cases 0..833 (all CRC-16 states x bytes, CRC-32 table recurrence, lengths 0..=48) are enumerated completely; random strings are sampled",
@@ -153,6 +153,27 @@ impl C19 {
                     }
                     if inc != got {
                         bad.push(("mismatch|crc32|incremental".into(), json!({"len": len, "data": data.iter().take(64).collect::<Vec<_>>(), "oneshot": got, "incremental": inc})));
+                    }
+                    // a CRC is a function of the bytes, not of where they lie: the same string at the other fifteen offsets of a
+                    // 16-byte aligned block (an implementation that aligns its block loop treats those starts differently)
+                    if len > 0 {
+                        let mut block = vec![0u8; len + 16 + 16];
+                        let base = (16 - (block.as_ptr() as usize) % 16) % 16;
+                        for off in 1..16usize {
+                            let start = base + off;
+                            block[start..start + len].copy_from_slice(&data);
+                            let g = get_crc32(&block[start..start + len]);
+                            let g16 = get_crc16(&block[start..start + len]);
+                            n += 1;
+                            if g != exp {
+                                bad.push(("mismatch|crc32|get-unaligned".into(), json!({"len": len, "offset_in_16_byte_block": off, "got": g, "expected": exp})));
+                                break;
+                            }
+                            if g16 != ref_crc16(&data) {
+                                bad.push(("mismatch|crc16|get-unaligned".into(), json!({"len": len, "offset_in_16_byte_block": off, "got": g16})));
+                                break;
+                            }
+                        }
                     }
                     let g16 = get_crc16(&data);
                     let e16 = ref_crc16(&data);
